@@ -85,9 +85,10 @@ def user_pos(n):
 class Driver:
     """A real SolutionTracks plus the recording of refresh emissions."""
 
-    def __init__(self, cfg: Cfg, graph=None, seg=None, shift=0, ecust=False):
+    def __init__(self, cfg: Cfg, graph=None, seg=None, shift=0, ecust=False, nshift=0):
         self.cfg = cfg
         self.shift = shift              # real id = model id - shift
+        self.nshift = nshift            # real NODE id = model node id - nshift (only for read-only flows)
         self.ecust = ecust
         g = graph if graph is not None else nx.DiGraph()
         if cfg.has_seg:
@@ -120,6 +121,7 @@ class Driver:
         """A new Driver whose tracks are CONSTRUCTED from a copy of this one's graph and array."""
         rb = self.cfg.rebuild
         shift = int(rb.get("shift", 0))
+        nshift = int(rb.get("nshift", 0))       # 0-based NODE ids (without segmentation only)
         tr = self.tracks
         g = nx.DiGraph()
         idk, lk = tr.features.tracklet_key, tr.features.lineage_key
@@ -128,14 +130,14 @@ class Driver:
             for k in (idk, lk):
                 if b.get(k) is not None:
                     b[k] = b[k] - shift
-            g.add_node(n, **b)
+            g.add_node(n - nshift, **b)
         for u, v, a in tr.graph.edges(data=True):
             b = dict(a)
             if rb.get("ecust"):
                 b[ECUSTOM_KEY] = (u + v) % 2        # 0 is falsy but not None
-            g.add_edge(u, v, **b)
+            g.add_edge(u - nshift, v - nshift, **b)
         seg = None if tr.segmentation is None else np.array(tr.segmentation, copy=True)
-        return Driver(self.cfg, graph=g, seg=seg, shift=shift, ecust=bool(rb.get("ecust")))
+        return Driver(self.cfg, graph=g, seg=seg, shift=shift, ecust=bool(rb.get("ecust")), nshift=nshift)
 
     def _on_refresh(self, *args):
         a = args[0] if args else None
@@ -234,7 +236,31 @@ class Driver:
 
     # ------------------------------------------------------------- projection
     def project(self, queries=False):
-        return project(self.tracks, self.cfg, queries, self.shift)
+        return project(self.tracks, self.cfg, queries, self.shift, self.nshift)
+
+
+class _NodeView:
+    """Read-only view of a tracks object whose node ids are shifted up by k (for projection only)."""
+
+    def __init__(self, tr, k):
+        import networkx as nx
+        self._tr = tr
+        self.graph = nx.relabel_nodes(tr.graph, {n: n + k for n in tr.graph.nodes}, copy=True)
+        ta = tr.track_annotator
+
+        class TA:
+            tracklet_id_to_nodes = {i: [n + k for n in ns] for i, ns in ta.tracklet_id_to_nodes.items()}
+            lineage_id_to_nodes = {i: [n + k for n in ns] for i, ns in ta.lineage_id_to_nodes.items()}
+            max_tracklet_id = ta.max_tracklet_id
+            max_lineage_id = ta.max_lineage_id
+        self.track_annotator = TA
+
+    def __getattr__(self, name):
+        return getattr(self._tr, name)
+
+
+def _unshift_nodes(p):
+    return p
 
 
 def rat(x, bound=64):
@@ -253,7 +279,9 @@ def rat(x, bound=64):
     return [f.numerator, f.denominator]
 
 
-def project(tr, cfg: Cfg, queries=False, shift=0):
+def project(tr, cfg: Cfg, queries=False, shift=0, nshift=0):
+    if nshift:
+        return _unshift_nodes(project(_NodeView(tr, nshift), cfg, False, shift, 0))
     N = cfg.N
     g = tr.graph
     tk, idk, lk = tr.features.time_key, tr.features.tracklet_key, tr.features.lineage_key
@@ -316,6 +344,8 @@ def project(tr, cfg: Cfg, queries=False, shift=0):
         "act": act, "reg": reg, "shpv": shpv, "shpr": shpr,
         "ulen": len(tr.action_history.undo_stack), "rlen": len(tr.action_history.redo_stack),
         "extra": len(extra_nodes) + outside,
+        # number of keys of the two lookup dicts (an entry with an empty list is invisible in t2n / l2n)
+        "nkeys": [len(ta.tracklet_id_to_nodes), len(ta.lineage_id_to_nodes)],
         "scale": [rat(x) for x in tr.scale] if tr.scale is not None else [],
     }
     if queries:
